@@ -1989,3 +1989,8 @@ MA('C15', 'fixed-displacement deformation lets the interpolator write into out',
    'out[:] = linear_deform(template, self.displacement, self.interp)',
    "linear_deform(template, self.displacement, self.interp, out=out.asarray().reshape(-1))",
    'R6a')
+MA('C08', 'conjugate l2 factory projects y - g instead of y - sigma g',
+   'odl/solvers/nonsmooth/proximal_operators.py', 'proximal_convex_conj_l2',
+   'prox_l2 = proximal_l2(space, lam=lam, g=g)',
+   'prox_l2 = proximal_l2(space, lam=lam, g=None if g is None else 2 * g)',
+   'R6')
